@@ -138,8 +138,30 @@ func svPreVote(pre *svVotePre, kind int) func(e *svEnv) {
 				sv.Unreachable("funds setup")
 			}
 		}
+		// a bystander: another proposal in voting with its own snapshot, a yes vote
+		// of A and an escrow of 5, which no transaction of the harness names
+		by := governance.NewProposal(svPropID2, governance.ProposalTypeGeneral, "descr", "headline", svParty_(1).Addr,
+			10, balance.NewAmountFromInt(5), 1<<39, pre.pass, "")
+		by.Status = governance.ProposalStatusVoting
+		if err := pm.Proposal.WithPrefixType(governance.ProposalStateActive).Set(by); err != nil {
+			sv.Unreachable("bystander proposal")
+		}
+		for i := 0; i < 2; i++ {
+			pv := governance.NewProposalVote(svParty_(i).Addr, governance.OPIN_UNKNOWN, pre.powers[i])
+			if err := pm.ProposalVote.Setup(svPropID2, pv); err != nil {
+				sv.Unreachable("bystander vote setup")
+			}
+		}
+		byVote := governance.NewProposalVote(svParty_(0).Addr, governance.OPIN_POSITIVE, pre.powers[0])
+		if err := pm.ProposalVote.Update(svPropID2, byVote); err != nil {
+			sv.Unreachable("bystander vote")
+		}
+		if err := pm.ProposalFund.AddFunds(svPropID2, svParty_(1).Addr, balance.NewAmountFromInt(5)); err != nil {
+			sv.Unreachable("bystander funds")
+		}
 		e.extra = append(e.extra, func(l *svLedger) {
 			pm := ctx.proposalMaster.WithState(ctx.deliver)
+			l.add("propFunds:bystander", "escrow2", "OLT", pm.ProposalFund.GetCurrentFundsForProposal(svPropID2).BigInt())
 			l.add("propFunds:total", "escrow", "OLT", pm.ProposalFund.GetCurrentFundsForProposal(svPropID).BigInt())
 			bal := ctx.balances.WithState(ctx.deliver)
 			c, err := bal.GetBalanceForCurr(keys.Address("executionCostGeneral"), &svOLT)
@@ -182,11 +204,28 @@ func svTally(pre *svVotePre, ops []governance.VoteOpinion) governance.VoteResult
 	return governance.VOTE_RESULT_TBD
 }
 
+// svBystanderProposalUntouched: the other proposal keeps its stage, votes and escrow.
+func svBystanderProposalUntouched(e *svEnv) {
+	p, st := svPropStage(e, svPropID2)
+	sv.Assert(p != nil && st == governance.ProposalStateActive && p.Status == governance.ProposalStatusVoting, "a-proposal-no-transaction-names-is-untouched")
+	pm := e.app.Context.proposalMaster.WithState(e.app.Context.deliver)
+	_, votes, err := pm.ProposalVote.GetVotesByID(svPropID2)
+	sv.Assert(err == nil && len(votes) == 2, "a-proposal-no-transaction-names-is-untouched")
+	for _, v := range votes {
+		want := governance.OPIN_UNKNOWN
+		if v.Validator.Equal(svParty_(0).Addr) {
+			want = governance.OPIN_POSITIVE
+		}
+		sv.Assert(v.Opinion == want, "a-proposal-no-transaction-names-is-untouched")
+	}
+	sv.Assert(pm.ProposalFund.GetCurrentFundsForProposal(svPropID2).BigInt().Cmp(big.NewInt(5)) == 0, "a-proposal-no-transaction-names-is-untouched")
+}
+
 // SV_C14_vote_expire_finalize: one vote / expire / finalise transaction.
 //
 // sv:bounds proposal (general type) in voting, funding, passed, failed (voted no), finalized or failed (cancelled) stage; pass percentage 51, 67 or 75; validator snapshot of 2-3 parties with power table {1,1,2} (thorough: also {1,1,1}, {33,33,34}, {49,2,49}); recorded opinions of A and B unknown/yes/no/give-up consistent with the stage, C has not voted (quick: finalise from the vectors yes,yes / no,no); pass percentage quick 51 or 75; voting deadline arbitrary (any relation to block height 20); escrowed total arbitrary; the shared proposal store's selected stage prefix (in-memory residue of the previous handler) active, failed or passed; kind: vote (any validator field and voter, opinion yes/no/give-up), expire, finalise (delivered twice); mempool-admitted regime
 // sv:outside configuration-update proposals (the update function table); more than 3 validators; validator-set changes between snapshot and vote; the BeginBlock queueing of internal transactions (the handlers are driven directly, as a mempool submission does)
-// sv:goal a vote succeeds only while voting and not after the deadline, only for a snapshotted validator, changes only that validator's opinion, and moves the proposal to passed / failed exactly when the exact-integer tally over the recorded opinions says so; expire succeeds only for a proposal in voting whose deadline has passed and moves it to failed (insufficient votes); finalise succeeds with a distribution only for a completed proposal whose tally is decided, empties the escrow, credits nobody more than the escrow held in total, debits nobody, moves it to finalized, and a second finalise changes nothing
+// sv:goal a second proposal (in voting, with votes and an escrow) that no transaction names keeps its stage, votes and escrow; a vote succeeds only while voting and not after the deadline, only for a snapshotted validator, changes only that validator's opinion, and moves the proposal to passed / failed exactly when the exact-integer tally over the recorded opinions says so; expire succeeds only for a proposal in voting whose deadline has passed and moves it to failed (insufficient votes); finalise succeeds with a distribution only for a completed proposal whose tally is decided, empties the escrow, credits nobody more than the escrow held in total, debits nobody, moves it to finalized, and a second finalise changes nothing
 func SV_C14_vote_expire_finalize() {
 	svCurrencyLimit = 1
 	pre := &svVotePre{}
@@ -208,6 +247,7 @@ func SV_C14_vote_expire_finalize() {
 		op := governance.VoteOpinion(1 + sv.Choice("vote.opinion", 3))
 		raw := svRaw(action.PROPOSAL_VOTE, &action_gov.VoteProposal{ProposalID: svPropID, Address: voter, ValidatorAddress: valAddr, Opinion: op})
 		r := e.step(raw, []int{ai, vi}, true)
+		svBystanderProposalUntouched(e)
 		p1, st1 := svPropStage(e, svPropID)
 		if r.resp.Code != 0 {
 			sv.Assert(st1 == st0, "refused-vote-does-not-move-the-proposal")
@@ -242,6 +282,7 @@ func SV_C14_vote_expire_finalize() {
 		ai, who := svAnyParty("actor", e.n)
 		raw := svRaw(action.EXPIRE_VOTES, &action_gov.ExpireVotes{ProposalID: svPropID, ValidatorAddress: who})
 		r := e.step(raw, []int{ai}, true)
+		svBystanderProposalUntouched(e)
 		p1, st1 := svPropStage(e, svPropID)
 		if r.resp.Code != 0 {
 			sv.Assert(st1 == st0, "refused-expiry-does-not-move-the-proposal")
@@ -255,6 +296,7 @@ func SV_C14_vote_expire_finalize() {
 		ai, who := svAnyParty("actor", e.n)
 		raw := svRaw(action.PROPOSAL_FINALIZE, &action_gov.FinalizeProposal{ProposalID: svPropID, ValidatorAddress: who})
 		r := e.step(raw, []int{ai}, true)
+		svBystanderProposalUntouched(e)
 		_, st1 := svPropStage(e, svPropID)
 		if r.resp.Code != 0 {
 			sv.Assert(st1 == st0, "refused-finalise-does-not-move-the-proposal")
